@@ -56,6 +56,13 @@ func errStr(err error) string {
 
 // watchdog runs f and returns false (with a goroutine dump) if it does not
 // return within d.
+//
+// A watchdog that fires is a suspicion, not yet a verdict: a hang lasts, a slow
+// machine does not. The first few times the operation gets a grace period
+// (confirmGrace); if it returns in it the run records an inconclusive "slow"
+// note and the operation counts as returned. Once hangs have been confirmed the
+// grace period is skipped (the run is failing anyway and should not pay a
+// minute per further hang).
 func watchdog(d time.Duration, f func()) (ok bool, dump string) {
 	done := make(chan struct{})
 	go func() {
@@ -66,10 +73,40 @@ func watchdog(d time.Duration, f func()) (ok bool, dump string) {
 	case <-done:
 		return true, ""
 	case <-time.After(d):
-		buf := make([]byte, 1<<20)
-		n := runtime.Stack(buf, true)
+	}
+	buf := make([]byte, 1<<20)
+	n := runtime.Stack(buf, true)
+	if confirmHang(done) {
 		return false, string(buf[:n])
 	}
+	return true, ""
+}
+
+const confirmGrace = 60 * time.Second
+
+var confirmedHangs int32
+
+// confirmHang waits for the grace period (unless hangs were already confirmed
+// in this run) and reports whether the operation is still not done.
+func confirmHang(done <-chan struct{}) bool {
+	if atomic.LoadInt32(&confirmedHangs) < 3 {
+		select {
+		case <-done:
+			if currentRun != nil {
+				currentRun.Inconclusive("an operation outlived its watchdog but returned within the grace period (machine too slow to decide; not judged)")
+			}
+			return false
+		case <-time.After(confirmGrace):
+		}
+	} else {
+		select {
+		case <-done:
+			return false
+		default:
+		}
+	}
+	atomic.AddInt32(&confirmedHangs, 1)
+	return true
 }
 
 // watchdogProgress is watchdog for long operations made of many steps: when d
